@@ -88,10 +88,11 @@ def _float_leaves(v, depth=0, seen=None):
 class CEval(object):
     """concrete evaluator of the spec dialect on real Python objects"""
 
-    def __init__(self, reg, env, old_env=None):
+    def __init__(self, reg, env, old_env=None, strict=False):
         self.reg = reg
         self.env = env
         self.old_env = old_env
+        self.strict = strict        # exact comparisons (used for preconditions: a borderline input is NOT accepted)
         self.scale = Fraction(max([1.0] + [abs(x) for x in _float_leaves(env)]))
 
     def ev(self, n, env=None):
@@ -184,7 +185,7 @@ class CEval(object):
     def cmp(self, op, a, b):
         num = lambda x: isinstance(x, (int, Fraction)) and not isinstance(x, bool)   # noqa
         inexact = (isinstance(a, Fraction) and a.denominator != 1) or (isinstance(b, Fraction) and b.denominator != 1)
-        if num(a) and num(b) and inexact:
+        if num(a) and num(b) and inexact and not self.strict:
             tol = SLACK * (self.scale + abs(a) + abs(b))
             if isinstance(op, ast.Eq):
                 return abs(a - b) <= tol
@@ -224,6 +225,8 @@ class CEval(object):
                 a2, b2 = Fraction(a), Fraction(b)
             except Exception:
                 return a == b
+            if self.strict:
+                return a2 == b2
             return abs(a2 - b2) <= SLACK * (self.scale + abs(a2) + abs(b2))
         return a == b
 
@@ -328,7 +331,7 @@ def run(path):
             fn = getattr(mod, parts[0])
         old_args = {p: from_json(v, builders) for p, v in rp['inputs'].items()}    # independent pre-state copy
         # precondition on the rebuilt input
-        ce = CEval(REG, dict(args))
+        ce = CEval(REG, dict(args), strict=True)
         pre_ok = True
         for r in c['requires']:
             if callable(r):
